@@ -35,6 +35,8 @@ TAGGED = ["!record [a]", "!record {fields: [a, b]}", "!record {fields: {a: }}", 
           "!!python/object:x {}", "&a [*a]", "{a: 1}", "[[[[[[[[[[int]]]]]]]]]]", "[int, [string, [float]]]", "[null, null]", "[null]"]
 EXPRS = ["a", "a + b", "a +", "+ a", "a ** b ** c", "-a ** b", "a[0]", "a[]", "a[0, 1, 2, 3]", "a[x: 0]", "a[x:0, 1]", "a[-1]", "a[99999999999999999999]",
          "size(a)", "size()", "size(a, 0)", "size(a, 'x')", "size(a, 9999999999999999999999)", "size(a, -1)", "size(v, 1)", "size(m, 0)",
+         "ma[x:0, 1, 2]", "ma[1, x:0, 2]", "ma[x:0, x:1, 2]", "ma[0, 1, 5]", "size(ma, 1)", "size(ma, 'x')", "ua[x:1, y:2]", "ua[x:0]", "ua[0, y:1]", "size(ua, 'x')", "dimensionIndex(ua, 'x')", "ua[0, 1]", "ua[0]", "da[x:1]", "da[0]", "size(da, 'x')",
+         "size(da, 0)", "dimensionCount(da)", "fa[y:0, x:1]", "fa[x:0, x:1]", "fa[z:0, y:1]", "a[y:0]",
          "size(fa, 0)", "size(fa, 1)", "size(fa, 2)", "size(fa, 18446744073709551615)", "size(fa, 18446744073709551616)", "size(fa, 18446744073709551617)",
          "size(fa, 9223372036854775808)", "size(a, 18446744073709551616)", "fa[18446744073709551616, 0]", "v[18446744073709551616]", "v[4294967296]",
          "fa[0, 9223372036854775808]", "size(fa, 'y')", "dimensionIndex(fa, 'y')", "dimensionIndex(a, 'x')", "dimensionIndex(a, 3)", "dimensionCount(a)", "dimensionCount(1)", "nope(a)", "a.b.c", "r.x", "r.nope", "1.x",
@@ -53,7 +55,7 @@ def model_with_field(t):
 
 
 def model_with_expr(e):
-    return BASE + ("Hole: !record\n  fields:\n    a: int32[x, y]\n    fa: int32[x:2, y:3]\n    b: float64\n    v: int32*4\n    m: string->int32\n    r: Rec\n    u: [int32, string]\n"
+    return BASE + ("Hole: !record\n  fields:\n    a: int32[x, y]\n    fa: int32[x:2, y:3]\n    ua: !array {items: int32, dimensions: 2}\n    ma: !array {items: int32, dimensions: [x, null, 3]}\n    da: int32[]\n    b: float64\n    v: int32*4\n    m: string->int32\n    r: Rec\n    u: [int32, string]\n"
                    "    o: int32?\n    s: string\n    e: En\n  computedFields:\n    c: %s\n" % json.dumps(e))
 
 
